@@ -9,4 +9,4 @@ Extraction "rlmodel_core.ml"
   utf8_decode utf8_encode full_rune parse read_next
   trim_space open_hist write crash_write
   match_bind loop init_state probe_exec
-  run_one ed_init cur_undo ring_top modelled_commands.
+  run_one ed_init cur_undo ring_top modelled_commands sources_accept.
